@@ -25,7 +25,7 @@ ASSUMPTIONS = ['ES5 white space = TAB VT FF SP NBSP BOM + Unicode Zs; line termi
                'punctuator list of ECMA-262 7.7; synthetic AUTOSEMI tokens are exempt from the substring clause']
 BUDGET_S = {'quick': 60, 'thorough': 600}
 REQUIRED_HITS = ['tokens_checked', 'line_terminator_crossed', 'multi_line_token']
-FLOOR = {'quick': 3000, 'thorough': 60000}
+FLOOR = {'quick': 3000, 'thorough': 40000}
 
 PUNCTUATORS = '''{ } ( ) [ ] . ; , < > <= >= == != === !== + - * % ++ -- << >> >>> & | ^ ! ~ && || ? : = += -= *=
 %= <<= >>= >>>= &= |= ^= / /='''.split()
